@@ -3,7 +3,9 @@ SPECIFICATION Spec
 CONSTANTS
   Chunk = 2
   Limit = 8
-  MaxStream = 3
+  StreamLens <- SL3
+  PullSizes <- PS12
+  PullFixed = FALSE
   MaxRoutes = 3
   MaxSubRoutes = 0
   Shapes <- ShapesQ3
